@@ -335,6 +335,70 @@ theorem firstOcc_snoc (b : Block) (l : List Block) :
     firstOcc (l ++ [b]) = firstOcc l ++ (if b ∈ l then [] else [b]) := by
   simp [firstOcc, firstOccAux_snoc]
 
+theorem firstOccAux_cons (seen : List Block) (b : Block) (bs : List Block) :
+    firstOccAux seen (b :: bs) = if b ∈ seen then firstOccAux seen bs else b :: firstOccAux (b :: seen) bs := by
+  simp [firstOccAux]
+
+/-- only membership in `seen` matters -/
+theorem firstOccAux_congr : ∀ (l s₁ s₂ : List Block), (∀ b, b ∈ s₁ ↔ b ∈ s₂) →
+    firstOccAux s₁ l = firstOccAux s₂ l := by
+  intro l
+  induction l with
+  | nil => intro _ _ _; rfl
+  | cons a l ih =>
+    intro s₁ s₂ h
+    unfold firstOccAux
+    by_cases ha : a ∈ s₁
+    · have ha' : a ∈ s₂ := (h a).1 ha
+      simp only [ha, ha', if_true]
+      exact ih s₁ s₂ h
+    · have ha' : a ∉ s₂ := fun x => ha ((h a).2 x)
+      simp only [ha, ha', if_false]
+      congr 1
+      exact ih _ _ (fun b => by simp [h b])
+
+theorem firstOccAux_append : ∀ (l m seen : List Block),
+    firstOccAux seen (l ++ m) = firstOccAux seen l ++ firstOccAux (l ++ seen) m := by
+  intro l
+  induction l with
+  | nil => intro m seen; simp [firstOccAux]
+  | cons a l ih =>
+    intro m seen
+    simp only [List.cons_append, firstOccAux_cons]
+    by_cases ha : a ∈ seen
+    · simp only [ha, if_true, ih]
+      congr 1
+      apply firstOccAux_congr
+      intro b
+      simp only [List.mem_append, List.mem_cons]
+      constructor
+      · intro h; rcases h with h | h; exact Or.inr (Or.inl h); exact Or.inr (Or.inr h)
+      · intro h; rcases h with rfl | h | h; exact Or.inr ha; exact Or.inl h; exact Or.inr h
+    · simp only [ha, if_false, ih, List.cons_append]
+      congr 2
+      apply firstOccAux_congr
+      intro b
+      simp only [List.mem_append, List.mem_cons]
+      constructor
+      · intro h; rcases h with h | rfl | h; exact Or.inr (Or.inl h); exact Or.inl rfl; exact Or.inr (Or.inr h)
+      · intro h; rcases h with rfl | h | h; exact Or.inr (Or.inl rfl); exact Or.inl h; exact Or.inr (Or.inr h)
+
+theorem firstOccAux_all_seen : ∀ (m seen : List Block), (∀ b ∈ m, b ∈ seen) → firstOccAux seen m = [] := by
+  intro m
+  induction m with
+  | nil => intro _ _; rfl
+  | cons a m ih =>
+    intro seen h
+    unfold firstOccAux
+    simp only [h a (by simp), if_true]
+    exact ih seen (fun b hb => h b (by simp [hb]))
+
+/-- sending everything twice changes nothing -/
+theorem firstOcc_append_self (l : List Block) : firstOcc (l ++ l) = firstOcc l := by
+  simp only [firstOcc, firstOccAux_append]
+  rw [firstOccAux_all_seen l (l ++ []) (fun b hb => by simp [hb])]
+  simp
+
 theorem firstOccAux_nodup : ∀ (l seen : List Block), (firstOccAux seen l).Nodup := by
   intro l
   induction l with
